@@ -1,6 +1,13 @@
 """C11 -- see DESIGN.md section 7/C11.  Machines: Ops/Combinators.v on the runner
 Ops/Multi.v; tie: K2 multi-source port-level replay (harness/k2m.py); oracle:
-harness/comb_oracle.py (direct reading of the property statement)."""
+harness/comb_oracle.py (direct reading of the property statement).
+Plus two oracle-only families (no model involved):
+  sync_exact_scenarios   inner (and outer) sequences that emit / complete / fail INSIDE subscribe(), drawn from a
+                         small reused pool (the same inner object arrives repeatedly); the reference executes the
+                         statement step by step and the notifications + subscribe/unsubscribe log must agree
+  library_source_scenarios   the library's own sources (of, empty, throw, never, completed Subjects, resolved
+                         Futures) and plain lists / generators returned by the projection (from_ conversion),
+                         flat_map(observable); on the trampoline and on ImmediateScheduler; judged by predicates"""
 import comb_oracle
 import comb_table
 import lib
@@ -10,23 +17,841 @@ NAMES = {"C10": ["concat", "catch", "catch_handler", "on_error_resume_next", "re
          "C12": ["switch_map", "switch_map_indexed", "flat_map_latest", "switch_latest"],
          "C13": ["zip", "combine_latest", "with_latest_from", "fork_join", "amb"]}["C11"]
 ORACLE = getattr(comb_oracle, "oracle_" + "C11".lower())
+EXTRA_SOURCES = 5
 
 
 def run(chk):
     chk.build_and_prove()
-    comb_table.run_ops(chk, "C11", NAMES, ORACLE)
-    chk.cov["rule"] = ("per operator: seeded instances (source counts 1-3, callback tables indexed by invocation, "
-                       "20% raising) x seeded interleavings of hand-driven hot sources (0-4 elements each, "
-                       "completion/error/none, 15% non-conforming tails, 15% with a dispose instant, same-instant "
-                       "events); non-trivial = distinct (machine, delivered input sequence) with >= 2 emissions and "
-                       "the oracle satisfied")
+    qhist = {}
+
+    def oracle(name, inst, res):
+        # statistic only: the longest queue of waiting inners (max_concurrent operators)
+        if name in ("concat_map", "merge_mc"):
+            arrived = started = deepest = 0
+            for st in comb_oracle.timeline(res):
+                i = st["inp"]
+                if i and i[0] == "src" and i[1] == 0 and i[2][0] == "N" and 0 in st["live_before"]:
+                    arrived += 1
+                started += sum(1 for k in st["subs"] if k >= 1)
+                deepest = max(deepest, min(arrived, len(res["env"].sources) - 1) - started)
+            key = f"longest_queue={min(deepest, 4)}{'+' if deepest >= 4 else ''}"
+            qhist[key] = qhist.get(key, 0) + 1
+        return ORACLE(name, inst, res)
+    comb_table.run_ops(chk, "C11", NAMES, oracle, extra_sources=EXTRA_SOURCES)
+    chk.cov["input_distribution"]["max_concurrent_queue_depth"] = dict(sorted(qhist.items()))
+    chk.cov["rule"] = ("per operator: seeded instances (source counts 0-3, max_concurrent 1-3, callback tables indexed "
+                       "by invocation, 15% raising) x seeded interleavings of hand-driven hot sources (1 outer + up to "
+                       "5 inner sources, 0-4 elements each, completion/error/none, 15% non-conforming tails, 15% with "
+                       "a dispose instant, same-instant events; for max_concurrent / concat_map half of the "
+                       "interleavings deliver 3-5 inners before the first one ends, so that 3 or more inners queue); "
+                       "non-trivial = distinct (machine, delivered input sequence) with >= 2 emissions and the oracle "
+                       "satisfied")
     chk.cov["operators_modelled"] = NAMES
     return chk.finish(trusted_extra=["multi-source K2 driver harness/k2m.py (hot sources, boundary log, canonical "
                                      "per-instant ordering of subscribe/unsubscribe events)",
                                      "runner assumption (Ops/Multi.v): the disposable an operator returns holds every "
-                                     "subscription it opened -- checked here by comparing unsubscribe instants"])
+                                     "subscription it opened -- checked here by comparing unsubscribe instants",
+                                     "oracle-only families of props/C11.py: logged cold/hot pool members and the "
+                                     "logging pass-through wrapper around library sources"])
 
 
 def replay(chk, path):
+    import json
+    rep = json.load(open(path))
+    fam = rep.get("family")
+    if fam in ("sync_exact_scenarios", "library_source_scenarios"):
+        bad = _sx_check(rep["case"]) if fam == "sync_exact_scenarios" else _ls_check(rep["case"])
+        if bad:
+            print(json.dumps({"family": fam, "case": rep["case"], "mismatch": bad[0], "what": bad[1], "got": bad[2],
+                              "expected": bad[3]}, indent=1, default=repr))
+            print(f"VIOLATION property=C11 replay={path}")
+            return 1
+        print(f"[C11] replay {path}: implementation agrees with the reference reading on this case")
+        return 0
+    if "rerun" in rep:
+        v, gi, gt = comb_table.rerun_case(rep["rerun"], ORACLE)
+        if v:
+            print(json.dumps({"operator": rep["operator"], "machine": rep["machine"], "inputs (now, event)": gi,
+                              "observed trace": gt, "what": v}, indent=1))
+            print(f"VIOLATION property=C11 replay={path}")
+            return 1
+        print(f"[C11] replay {path}: the oracle is satisfied on this case now")
+        return 0
     print(open(path).read())
     return 1
+
+
+# =====================================================================================================
+# Family 1: sync_exact_scenarios
+# =====================================================================================================
+# case = {"op", "mc": None | 1 | 2 | 3, "pool": [member...], "outer": {"prefix": [j...], "end": "C"|"E"|"open"},
+#         "script": [step...]}
+# pool member: {"kind": "cold", "prefix": [...], "end": "C" | "E" | "open"}  or  {"kind": "hot"}
+#   cold: an Observable over a logging subscribe function; EVERY subscription gets the prefix synchronously
+#         (inside subscribe()), then completes ("C"), fails ("E") or stays open; an open subscription receives
+#         what the script pushes to the member later; a later subscription starts afresh
+#   hot:  a Subject (logging subscribe / unsubscribe); its termination is remembered, so subscribing it
+#         afterwards terminates inside subscribe()
+# The projection maps outer element j to pool[j] -- the SAME object every time j arrives.
+# outer: emits the prefix and terminates ("C" / "E") or stays open, all inside subscribe(); if open the script
+#   drives it.   step -1 is subscribe(); script steps are numbered from 0:
+#   ["outer", j] | ["push", m, v] | ["complete", m] | ["error", m] | ["outer_complete"] | ["outer_error"] | ["dispose"]
+_SX_VALUES = [0, None, "", False, 1, 2, 3, "a", "b"]
+_SX_OPS = [("flat_map", None), ("flat_map_indexed", None), ("map+merge_all", None), ("concat_map", 1),
+           ("map+merge(max_concurrent)", 1), ("map+merge(max_concurrent)", 2), ("map+merge(max_concurrent)", 3)]
+
+
+def _sx_gen(rng):
+    op, mc = rng.choice(_SX_OPS)
+    npool = rng.choice([2, 3, 3, 4])
+    pool = []
+    for _ in range(npool):
+        if rng.random() < 0.7:
+            pool.append({"kind": "cold",
+                         "prefix": [rng.choice(_SX_VALUES) for _ in range(rng.choice([0, 1, 1, 2, 3]))],
+                         "end": rng.choice(["C", "C", "C", "C", "open", "open", "open", "E"])})
+        else:
+            pool.append({"kind": "hot"})
+    outer = {"prefix": [rng.randrange(npool) for _ in range(rng.choice([0, 0, 0, 1, 2, 3, 4]))],
+             "end": rng.choice(["open", "open", "open", "open", "C", "C", "E"])}
+    if outer["end"] == "E" and rng.random() < 0.7:
+        outer["end"] = "open"
+    n = rng.randint(2, 14)
+    script = []
+    outer_over = outer["end"] != "open"
+    while len(script) < n:
+        late = len(script) >= n // 2
+        r = rng.random()
+        m = rng.randrange(npool)
+        if outer_over or (late and rng.random() < 0.5):          # later: mostly the members' ends
+            r = 0.40 + rng.random() * 0.6
+        if r < 0.40:
+            script.append(["outer", rng.randrange(npool)])
+        elif r < 0.58:
+            script.append(["push", m, rng.choice(_SX_VALUES)])
+        elif r < 0.82:
+            script.append(["complete", m])
+        elif r < 0.86:
+            script.append(["error", m])
+        elif not late:
+            script.append(["push", m, rng.choice(_SX_VALUES)])
+        elif r < 0.95:
+            script.append(["outer_complete"])
+            outer_over = True
+        elif r < 0.97:
+            script.append(["outer_error"])
+            outer_over = True
+        else:
+            script.append(["dispose"])
+    return {"op": op, "mc": mc, "pool": pool, "outer": outer, "script": script}
+
+
+def _sx_run_impl(case):
+    """Drive the real operator: -> (notifications [(step, kind, payload)], log [(step, 'sub'|'unsub', member)],
+    description of what is still subscribed at the end)."""
+    import reactivex as rx
+    from reactivex import operators as ops
+    from reactivex.disposable import Disposable
+    from reactivex.subject import Subject
+    op, mc, pool, script = case["op"], case["mc"], case["pool"], case["script"]
+    step = [-1]
+    log, notes = [], []
+    live = {}
+
+    def logged(m, inner_dispose):
+        log.append((step[0], "sub", m))
+        live[m] = live.get(m, 0) + 1
+
+        def dispose():
+            log.append((step[0], "unsub", m))
+            live[m] -= 1
+            inner_dispose()
+        return Disposable(dispose)          # Disposable runs its action once
+
+    class LoggedSubject(Subject):
+        def __init__(self, m):
+            super().__init__()
+            self.m = m
+
+        def _subscribe_core(self, observer, scheduler=None):
+            holder = []
+            d = logged(self.m, lambda: holder[0].dispose())
+            holder.append(super()._subscribe_core(observer, scheduler))
+            return d
+
+    class Cold:
+        def __init__(self, m, spec):
+            self.m, self.spec, self.subs = m, spec, []
+            self.err_name = "outer" if m == "outer" else f"member{m}"
+            self.observable = rx.Observable(self.subscribe)
+
+        def subscribe(self, observer, scheduler=None):
+            rec = [observer]
+            d = logged(self.m, lambda: self.subs.remove(rec) if rec in self.subs else None)
+            self.subs.append(rec)
+            for v in self.spec["prefix"]:
+                observer.on_next(v)
+            if self.spec["end"] == "C":
+                observer.on_completed()
+            elif self.spec["end"] == "E":
+                observer.on_error(Exception(self.err_name))
+            return d
+
+        def on_next(self, v):
+            for rec in list(self.subs):
+                rec[0].on_next(v)
+
+        def on_completed(self):
+            for rec in list(self.subs):
+                rec[0].on_completed()
+
+        def on_error(self, e):
+            for rec in list(self.subs):
+                rec[0].on_error(e)
+
+    members = [LoggedSubject(m) if s["kind"] == "hot" else Cold(m, s) for m, s in enumerate(pool)]
+    inner = [x if isinstance(x, Subject) else x.observable for x in members]
+    outer = Cold("outer", {"prefix": case["outer"]["prefix"], "end": case["outer"]["end"]})
+    src = outer.observable
+    if op == "flat_map":
+        o = src.pipe(ops.flat_map(lambda j: inner[j]))
+    elif op == "flat_map_indexed":
+        o = src.pipe(ops.flat_map_indexed(lambda j, _i: inner[j]))
+    elif op == "map+merge_all":
+        o = src.pipe(ops.map(lambda j: inner[j]), ops.merge_all())
+    elif op == "concat_map":
+        o = src.pipe(ops.concat_map(lambda j: inner[j]))
+    elif op == "map+merge(max_concurrent)":
+        o = src.pipe(ops.map(lambda j: inner[j]), ops.merge(max_concurrent=mc))
+    else:
+        raise AssertionError(op)
+    sub = o.subscribe(lambda v: notes.append((step[0], "N", v)),
+                      lambda e: notes.append((step[0], "E", str(e))),
+                      lambda: notes.append((step[0], "C", None)))
+    for k, st in enumerate(script):
+        step[0] = k
+        try:
+            if st[0] == "outer":
+                outer.on_next(st[1])
+            elif st[0] == "push":
+                members[st[1]].on_next(st[2])
+            elif st[0] == "complete":
+                members[st[1]].on_completed()
+            elif st[0] == "error":
+                members[st[1]].on_error(Exception(f"member{st[1]}"))
+            elif st[0] == "outer_complete":
+                outer.on_completed()
+            elif st[0] == "outer_error":
+                outer.on_error(Exception("outer"))
+            elif st[0] == "dispose":
+                sub.dispose()
+            else:
+                raise AssertionError(st)
+        except AssertionError:
+            raise
+        except Exception as e:                      # the script's calls never raise on a correct tree
+            notes.append((k, "RAISED", repr(e)))
+    held = [f"{'member ' + str(m) if m != 'outer' else 'outer'} x{c}" for m, c in live.items() if c]
+    return notes, log, held
+
+
+def _sx_reference(case):
+    """The property text, executed: -> (notifications, log, finished?, facts about the case).
+    Reading: the output carries the elements of the subscribed inner sequences, each at the moment the inner
+    delivers it; an arriving inner is subscribed at once unless max_concurrent inners are subscribed, in which
+    case it waits; when a subscribed inner completes the longest-waiting one is subscribed; the first error
+    (outer or subscribed inner) ends everything; completion once the outer has completed and no inner is
+    subscribed or waiting; after the end / a dispose nothing is subscribed."""
+    pool, mc, script = case["pool"], case["mc"], case["script"]
+    notes, log = [], []
+    hot = {m: "open" for m, s in enumerate(pool) if s["kind"] == "hot"}
+    running, queue = [], []
+    S = {"step": -1, "outer_done": False, "outer_live": False, "finished": False}
+    facts = set()
+    arrived = []
+
+    def release():
+        S["finished"] = True
+        for r in running:
+            if r["live"]:
+                r["live"] = False
+                log.append((S["step"], "unsub", r["m"]))
+        del running[:]
+        del queue[:]
+        if S["outer_live"]:
+            S["outer_live"] = False
+            log.append((S["step"], "unsub", "outer"))
+
+    def finish(kind, payload):
+        notes.append((S["step"], kind, payload))
+        release()
+
+    def inner_completed(r):
+        r["live"] = False
+        log.append((S["step"], "unsub", r["m"]))
+        running.remove(r)
+        if queue:
+            facts.add("queued_inner_started")
+            start(queue.pop(0))
+        elif S["outer_done"] and not running:
+            facts.add("completed_by_last_inner")
+            finish("C", None)
+
+    def start(m):
+        r = {"m": m, "live": True}
+        if any(x["m"] == m for x in running):
+            facts.add("same_inner_subscribed_twice_at_once")
+        running.append(r)
+        log.append((S["step"], "sub", m))
+        spec = pool[m]
+        if spec["kind"] == "cold":
+            for v in spec["prefix"]:
+                notes.append((S["step"], "N", v))
+            ending = spec["end"]
+        else:
+            ending = hot[m]
+        if ending == "C":
+            facts.add("inner_completes_inside_subscribe")
+            inner_completed(r)
+        elif ending == "E":
+            facts.add("inner_fails_inside_subscribe")
+            finish("E", f"member{m}")
+
+    def arrive(m):
+        if m in arrived:
+            facts.add("same_inner_object_again")
+        arrived.append(m)
+        if mc is None or len(running) < mc:
+            start(m)
+        else:
+            queue.append(m)
+            if len(queue) >= 3:
+                facts.add("three_or_more_waiting")
+
+    def outer_completed():
+        S["outer_done"] = True
+        if S["outer_live"]:
+            S["outer_live"] = False
+            log.append((S["step"], "unsub", "outer"))
+        if not running:
+            facts.add("completed_by_outer")
+            finish("C", None)
+
+    # subscribe(): the outer is subscribed and may deliver everything at once
+    S["outer_live"] = True
+    log.append((-1, "sub", "outer"))
+    for j in case["outer"]["prefix"]:
+        if S["finished"]:
+            break
+        facts.add("outer_emits_inside_subscribe")
+        arrive(j)
+    if not S["finished"]:
+        if case["outer"]["end"] == "C":
+            outer_completed()
+        elif case["outer"]["end"] == "E":
+            S["outer_done"] = True
+            finish("E", "outer")
+    for k, st in enumerate(script):
+        S["step"] = k
+        if st[0] in ("complete", "error") and st[1] in hot and hot[st[1]] == "open":
+            hot[st[1]] = "C" if st[0] == "complete" else "E"      # a Subject remembers, whoever listens
+            was_open = True
+        elif st[0] in ("push", "complete", "error"):
+            was_open = hot.get(st[1], "open") == "open"            # a terminated Subject stays silent
+        if S["finished"]:
+            continue
+        if st[0] == "outer":
+            if not S["outer_done"]:
+                arrive(st[1])
+        elif st[0] == "outer_complete":
+            if not S["outer_done"]:
+                outer_completed()
+        elif st[0] == "outer_error":
+            if not S["outer_done"]:
+                S["outer_done"] = True
+                facts.add("outer_error")
+                finish("E", "outer")
+        elif st[0] == "dispose":
+            facts.add("disposed")
+            release()
+        else:
+            mine = [r for r in running if r["m"] == st[1]]           # the member's live subscriptions, oldest first
+            if not was_open or not mine:
+                continue
+            if st[0] == "push":
+                for r in mine:
+                    notes.append((k, "N", st[2]))
+            elif st[0] == "complete":
+                for r in mine:
+                    if r["live"] and not S["finished"]:
+                        inner_completed(r)
+            elif st[0] == "error":
+                facts.add("inner_error_later")
+                finish("E", f"member{st[1]}")
+    return notes, log, S["finished"], facts
+
+
+def _sx_check(case):
+    """None if the implementation agrees with the reference, else (kind, text, got, expected)."""
+    e_notes, e_log, e_finished, _ = _sx_reference(case)
+    status, res = lib.with_timeout(10, _sx_run_impl, case)
+    key = lambda x: (x[0], x[1], str(x[2]))
+    exp = {"notifications (step, kind, payload)": [list(x) for x in e_notes],
+           "subscriptions (step, what, member)": [list(x) for x in sorted(e_log, key=key)]}
+    if status != "ok":
+        return ("timeout", "the script did not finish in 10 s", None, exp)
+    notes, log, held = res
+    got = {"notifications (step, kind, payload)": [list(x) for x in notes],
+           "subscriptions (step, what, member)": [list(x) for x in sorted(log, key=key)],
+           "still subscribed at the end": held}
+    # repr: 0 / False / 0.0 are different elements.  The order among the subscribe / unsubscribe events of ONE step
+    # is left open by the statement: the logs are compared as per-step multisets.
+    if repr(notes) != repr(e_notes):
+        i = next((i for i, (a, b) in enumerate(zip(notes, e_notes)) if repr(a) != repr(b)),
+                 min(len(notes), len(e_notes)))
+        return ("notifications", f"subscriber's notification #{i}: got {notes[i] if i < len(notes) else 'nothing'}, "
+                f"expected {e_notes[i] if i < len(e_notes) else 'nothing'}", got, exp)
+    if sorted(log, key=key) != sorted(e_log, key=key):
+        # The statement is silent about what happens INSIDE the step in which the output ended: a source that
+        # keeps delivering from within its own subscribe() call after the subscriber's terminal can make the
+        # operator open further inner subscriptions, which are released again before the step is over.  Such
+        # balanced subscribe/unsubscribe pairs in the final step are accepted; everything else must agree.
+        from collections import Counter
+        g, e = Counter((a, b, str(c)) for a, b, c in log), Counter((a, b, str(c)) for a, b, c in e_log)
+        missing, extra = e - g, g - e
+        end_step = max((x[0] for x in e_log), default=-1) if e_finished else None
+        bal = Counter()
+        for (stp, what, m), c in extra.items():
+            bal[(stp, m)] += c if what == "sub" else -c
+        if missing or not e_finished or any(x[0] != end_step for x in extra) or any(bal.values()):
+            return ("subscriptions", "subscribe/unsubscribe log differs", got, exp)
+    if e_finished and held:
+        return ("leak", f"still subscribed after the subscriber's end: {held}", got, exp)
+    return None
+
+
+def _sx_shrink(case, kind):
+    """Greedy: drop script steps / outer prefix elements / member prefix elements while the same kind of mismatch
+    remains."""
+    import copy
+    case = copy.deepcopy(case)
+    again = True
+    while again:
+        again = False
+        cands = []
+        for i in range(len(case["script"])):
+            c = copy.deepcopy(case)
+            del c["script"][i]
+            cands.append(c)
+        for i in range(len(case["outer"]["prefix"])):
+            c = copy.deepcopy(case)
+            del c["outer"]["prefix"][i]
+            cands.append(c)
+        for m, s in enumerate(case["pool"]):
+            for i in range(len(s.get("prefix", []))):
+                c = copy.deepcopy(case)
+                del c["pool"][m]["prefix"][i]
+                cands.append(c)
+        for c in cands:
+            bad = _sx_check(c)
+            if bad and bad[0] == kind:
+                case, again = c, True
+                break
+    return case
+
+
+def sync_exact_scenarios(chk):
+    n = 800 if chk.tier == "quick" else 8000
+    hist, fact_hist = {}, {}
+    nontrivial = set()
+    shrunk, worst = {}, {}
+    for _ in range(n):
+        case = _sx_gen(chk.rng)
+        chk.cov["evaluations"] += 1
+        e_notes, _, _, facts = _sx_reference(case)
+        key = case["op"] + (f"={case['mc']}" if case["op"].endswith(")") else "")
+        hist[key] = hist.get(key, 0) + 1
+        for f in facts:
+            fact_hist[f] = fact_hist.get(f, 0) + 1
+        bad = _sx_check(case)
+        if bad:
+            sig = f"C11|sync_exact|{case['op']}|{bad[0]}"
+            if shrunk.get(sig, 0) < 3:                 # minimise the first few per signature, keep the smallest
+                shrunk[sig] = shrunk.get(sig, 0) + 1
+                case = _sx_shrink(case, bad[0])
+                bad = _sx_check(case)
+                facts = _sx_reference(case)[3]
+            size = len(case["script"]) + len(case["outer"]["prefix"])
+            if sig in worst and worst[sig][2] <= size:
+                continue
+            worst[sig] = (sig,
+                          {"family": "sync_exact_scenarios", "case": case, "mismatch": bad[0], "what": bad[1],
+                           "got": bad[2], "expected": bad[3], "facts": sorted(facts),
+                           "legend": "pool[j] is the inner the projection returns for outer element j (same object "
+                                     "every time); cold: every subscription gets the prefix inside subscribe(), then "
+                                     "C / E / stays open for the script's push|complete|error; hot: a Subject.  The "
+                                     "outer delivers its prefix (and end) inside subscribe() = step -1; script steps "
+                                     "are numbered from 0; 'expected' is the property text executed directly"},
+                          size)
+        elif len(e_notes) >= 2 and ("inner_completes_inside_subscribe" in facts or "same_inner_object_again" in facts):
+            nontrivial.add(repr(case))
+    for sig, rep, size in worst.values():              # the smallest failing case per signature
+        chk.violation(sig, rep, size=size)
+    return nontrivial, hist, fact_hist
+
+
+# =====================================================================================================
+# Family 2: library_source_scenarios
+# =====================================================================================================
+# case = {"op", "mc", "scheduler": "trampoline" | "immediate", "outer": {"kind": "of" | "subject", "end": "C" |
+#         "open" | "E"}, "arrivals": [i...], "inners": [spec...]}
+#   arrivals: the outer's elements; element i is projected to inners[i] (the same object whenever i repeats)
+#   inner spec: {"kind": "of" | "empty" | "throw" | "never" | "of+throw" | "of+never" | "done_subject" | "list" |
+#                "generator" | "future" | "failed_future", "n": number of elements}
+#   inner i's elements are 100 * i + 0, 1, ...
+_LS_OPS = [("flat_map", None), ("flat_map", None), ("flat_map_indexed", None), ("flat_map(observable)", None),
+           ("map+merge_all", None), ("concat_map", 1), ("map+merge(max_concurrent)", 1),
+           ("map+merge(max_concurrent)", 2), ("map+merge(max_concurrent)", 3)]
+_LS_END = {"of": "C", "empty": "C", "throw": "E", "never": "open", "of+throw": "E", "of+never": "open",
+           "done_subject": "C", "list": "C", "generator": "C", "future": "C", "failed_future": "E"}
+
+
+def _ls_gen(rng):
+    op, mc = rng.choice(_LS_OPS)
+    kinds = ["of", "of", "of", "empty", "throw", "never", "of+throw", "of+never", "done_subject"]
+    if op in ("flat_map", "flat_map_indexed"):
+        kinds += ["list", "list", "generator", "future", "failed_future"]
+    if op == "map+merge_all":
+        kinds += ["future", "failed_future"]
+    ninner = 1 if op == "flat_map(observable)" else rng.choice([1, 2, 3, 3, 4])
+    inners = []
+    for i in range(ninner):
+        kind = rng.choice(kinds)
+        if rng.random() < 0.35:
+            kind = rng.choice(["of", "list"] if "list" in kinds else ["of"])
+        if op == "flat_map(observable)":
+            kind = rng.choice(["of", "of", "empty", "of+throw", "of+never", "throw", "never"])
+        n = 0 if kind in ("empty", "throw", "never", "done_subject", "failed_future") else \
+            1 if kind == "future" else rng.choice([1, 2, 3])
+        inners.append({"kind": kind, "n": n})
+    narr = rng.choice([0, 1, 2, 3, 4, 5])
+    arrivals = []
+    for _ in range(narr):
+        i = rng.randrange(ninner)
+        if inners[i]["kind"] == "generator" and i in arrivals:     # a generator object can be consumed once
+            continue
+        arrivals.append(i)
+    return {"op": op, "mc": mc, "scheduler": rng.choice(["trampoline", "immediate"]),
+            "outer": {"kind": rng.choice(["of", "of", "subject"]),
+                      "end": rng.choice(["C", "C", "C", "C", "open", "open", "E"])},
+            "arrivals": arrivals, "inners": inners}
+
+
+def _ls_seq(i, spec):
+    return [100 * i + x for x in range(spec["n"])]
+
+
+def _ls_run_impl(case):
+    """-> (notifications [(kind, payload)], log [(what, inner index)] in real order)"""
+    import concurrent.futures
+    import reactivex as rx
+    from reactivex import operators as ops
+    from reactivex.disposable import Disposable
+    from reactivex.scheduler import ImmediateScheduler
+    from reactivex.subject import Subject
+    op, mc = case["op"], case["mc"]
+    log, notes = [], []
+
+    def wrap(i, o):
+        def subscribe(observer, scheduler=None):
+            log.append(("sub", i))
+
+            def on_c():
+                log.append(("term", i))
+                observer.on_completed()
+
+            def on_e(e):
+                log.append(("term", i))
+                observer.on_error(e)
+            d = o.subscribe(observer.on_next, on_e, on_c, scheduler=scheduler)
+
+            def dispose():
+                log.append(("unsub", i))
+                d.dispose()
+            return Disposable(dispose)
+        return rx.Observable(subscribe)
+
+    objs = []
+    for i, sp in enumerate(case["inners"]):
+        xs = _ls_seq(i, sp)
+        err = Exception(f"inner{i}")
+        k = sp["kind"]
+        if k == "of":
+            o = wrap(i, rx.of(*xs))
+        elif k == "empty":
+            o = wrap(i, rx.empty())
+        elif k == "throw":
+            o = wrap(i, rx.throw(err))
+        elif k == "never":
+            o = wrap(i, rx.never())
+        elif k == "of+throw":
+            o = wrap(i, rx.of(*xs).pipe(ops.concat(rx.throw(err))))
+        elif k == "of+never":
+            o = wrap(i, rx.of(*xs).pipe(ops.concat(rx.never())))
+        elif k == "done_subject":
+            s = Subject()
+            s.on_completed()
+            o = wrap(i, s)
+        elif k == "list":
+            o = list(xs)
+        elif k == "generator":
+            o = (x for x in xs)
+        elif k in ("future", "failed_future"):
+            o = concurrent.futures.Future()
+            if k == "future":
+                o.set_result(xs[0])
+            else:
+                o.set_exception(err)
+        else:
+            raise AssertionError(k)
+        objs.append(o)
+    arrivals = case["arrivals"]
+    okind, oend = case["outer"]["kind"], case["outer"]["end"]
+    subject = None
+    if okind == "of":
+        src = rx.of(*arrivals)
+        if oend == "open":
+            src = src.pipe(ops.concat(rx.never()))
+        elif oend == "E":
+            src = src.pipe(ops.concat(rx.throw(Exception("outer"))))
+    else:
+        subject = Subject()
+        src = subject
+    if op == "flat_map":
+        o = src.pipe(ops.flat_map(lambda j: objs[j]))
+    elif op == "flat_map_indexed":
+        o = src.pipe(ops.flat_map_indexed(lambda j, _i: objs[j]))
+    elif op == "flat_map(observable)":
+        o = src.pipe(ops.flat_map(objs[0]))
+    elif op == "map+merge_all":
+        o = src.pipe(ops.map(lambda j: objs[j]), ops.merge_all())
+    elif op == "concat_map":
+        o = src.pipe(ops.concat_map(lambda j: objs[j]))
+    elif op == "map+merge(max_concurrent)":
+        o = src.pipe(ops.map(lambda j: objs[j]), ops.merge(max_concurrent=mc))
+    else:
+        raise AssertionError(op)
+    sched = ImmediateScheduler() if case["scheduler"] == "immediate" else None
+    def end(kind, payload):
+        notes.append((kind, payload))
+        log.append(("END", None))
+    o.subscribe(lambda v: notes.append(("N", v)), lambda e: end("E", str(e)), lambda: end("C", None),
+                scheduler=sched)
+    if subject is not None:
+        for j in arrivals:
+            subject.on_next(j)
+        if oend == "C":
+            subject.on_completed()
+        elif oend == "E":
+            subject.on_error(Exception("outer"))
+    return notes, log
+
+
+def _ls_judge(case, notes, log):
+    """direct reading of the statement on the recorded outcome: None or (kind, text, expectation)"""
+    mc, inners, arrivals = case["mc"], case["inners"], case["arrivals"]
+    seqs = [_ls_seq(i, sp) for i, sp in enumerate(inners)]
+    ends = [_LS_END[sp["kind"]] for sp in inners]
+    logged = [sp["kind"] not in ("list", "generator", "future", "failed_future") for sp in inners]
+    kinds = "".join(k for k, _ in notes)
+    import re
+    if not re.match(r"^N*[EC]?$", kinds):
+        return ("grammar", f"notification kinds {kinds}", "N* then at most one terminal")
+    vals = [v for k, v in notes if k == "N"]
+    term = next(((k, v) for k, v in notes if k in "EC"), None)
+    # which arrivals get subscribed: all of them, or -- max_concurrent -- in arrival order while fewer than mc
+    # subscribed inners never end; the first failing one (or a failing outer) ends everything.  `started` stops at
+    # the first failing arrival (inclusive); `started_max` does not (an upper bound: under the trampoline later
+    # arrivals may be subscribed before the failing one delivers its error)
+    started, started_max, holders, failing = [], [], 0, case["outer"]["end"] == "E"
+    first_fail = None
+    for pos, i in enumerate(arrivals):
+        if mc is not None and holders >= mc:
+            break
+        started_max.append(i)
+        if first_fail is None:
+            started.append(i)
+        if ends[i] == "open":
+            holders += 1
+        elif ends[i] == "E" and first_fail is None:
+            failing = True
+            first_fail = pos
+    # (1) only elements of subscribed inners, each inner's elements in order: the output restricted to inner object i
+    #     is a shuffle of prefixes of its sequence, one per subscription
+    for i in range(len(inners)):
+        mine = [v for v in vals if isinstance(v, int) and v // 100 == i and v in seqs[i]]
+        ptrs = [0] * (started_max if failing else started).count(i)
+        for v in mine:
+            idx = seqs[i].index(v)
+            if idx in ptrs:
+                ptrs[ptrs.index(idx)] += 1
+            else:
+                return ("order", f"element {v} of inner {i} out of order / more often than inner {i} was subscribed "
+                        f"({len(ptrs)}x)", {"output": vals})
+        if not failing and any(p != len(seqs[i]) for p in ptrs):
+            return ("missing", f"inner {i} was subscribed {len(ptrs)}x but its elements arrived only up to {ptrs}",
+                    {"output": vals})
+    foreign = [v for v in vals if not (isinstance(v, int) and 0 <= v // 100 < len(inners) and v in seqs[v // 100])]
+    if foreign:
+        return ("foreign", f"elements {foreign} belong to no inner sequence", None)
+    # (2) terminal
+    if failing and first_fail is None and term is None and case["outer"]["end"] == "E":
+        return ("terminal", "the outer failed but no error was delivered", "E")
+    if first_fail is not None and (term is None or term[0] != "E"):
+        return ("terminal", f"subscribed inner {arrivals[first_fail]} fails but the output got {term}", "E")
+    if not failing:
+        all_done = case["outer"]["end"] == "C" and holders == 0 and len(started) == len(arrivals)
+        if all_done and (term is None or term[0] != "C"):
+            return ("terminal", f"outer and all inners completed but the output got {term}", "C")
+        if not all_done and term is not None:
+            return ("terminal", f"terminal {term} although "
+                    f"{'the outer is' if case['outer']['end'] != 'C' else 'an inner is'} still open", None)
+    if term is not None and term[0] == "E":
+        if not failing:
+            return ("terminal", f"error {term} without a failing sequence", None)
+    # (3) max_concurrent = 1 is the ordered concatenation
+    if mc == 1 and case["outer"]["end"] != "E":
+        exp = []
+        for i in started:
+            exp += seqs[i]
+        if vals != exp:
+            return ("concatenation", f"output {vals}, expected the ordered concatenation {exp}", exp)
+    # (4) subscription discipline seen through the logging wrappers: start order = arrival order, at most mc inners
+    #     subscribed-and-unfinished at any moment, nothing left subscribed after the terminal
+    # (subscriptions opened and released again after the output's end -- a source still delivering from inside its
+    # own subscribe() -- are left open by the statement: only their balance is checked)
+    cut = next((n for n, (w, _) in enumerate(log) if w == "END"), len(log))
+    subs = [i for (w, i) in log[:cut] if w == "sub"]
+    want = [i for i in (started_max if failing else started) if logged[i]]
+    if not failing and subs != want:
+        return ("start-order", f"inners subscribed in the order {subs}, expected {want}", want)
+    if failing and subs != want[:len(subs)]:
+        return ("start-order", f"inners subscribed in the order {subs}, expected a prefix of {want}", want)
+    active = 0
+    bal = {}
+    ended = False
+    for (w, i) in log:
+        if w == "END":
+            ended = True
+        if ended:
+            if w in ("sub", "unsub"):
+                bal[i] = bal.get(i, 0) + (1 if w == "sub" else -1)
+            continue
+        if w == "sub":
+            active += 1
+            bal[i] = bal.get(i, 0) + 1
+        elif w == "term":
+            active -= 1
+        elif w == "unsub":
+            bal[i] = bal.get(i, 0) - 1
+        if mc is not None and active > mc and all(logged):
+            return ("concurrency", f"{active} inner sequences subscribed and unfinished at once (max_concurrent={mc})",
+                    None)
+    if term is not None and any(bal.values()):
+        return ("leak", f"still subscribed after the terminal: {[i for i, c in bal.items() if c]}", None)
+    if term is None:
+        open_now = sorted(i for i, c in bal.items() for _ in range(c))
+        want_open = sorted(i for i in started if ends[i] == "open" and logged[i])
+        if open_now != want_open:
+            return ("open-set", f"inners still subscribed {open_now}, expected the unfinished ones {want_open}", None)
+    return None
+
+
+def _ls_check(case):
+    status, res = lib.with_timeout(10, _ls_run_impl, case)
+    if status != "ok":
+        return ("timeout", "did not finish in 10 s", None, None)
+    notes, log = res
+    bad = _ls_judge(case, notes, log)
+    if bad:
+        return (bad[0], bad[1], {"notifications": [list(x) for x in notes], "wrapper log": [list(x) for x in log]},
+                bad[2])
+    return None
+
+
+def library_source_scenarios(chk):
+    n = 800 if chk.tier == "quick" else 8000
+    hist, kinds = {}, {}
+    nontrivial = set()
+    worst = {}
+    for _ in range(n):
+        case = _ls_gen(chk.rng)
+        chk.cov["evaluations"] += 1
+        key = case["op"] + (f"={case['mc']}" if case["op"].endswith(")") and case["mc"] else "") + \
+            f"/{case['scheduler']}/outer={case['outer']['kind']}:{case['outer']['end']}"
+        hist[key] = hist.get(key, 0) + 1
+        for i in set(case["arrivals"]):
+            k = case["inners"][i]["kind"]
+            kinds[k] = kinds.get(k, 0) + 1
+        if len(set(case["arrivals"])) < len(case["arrivals"]):
+            kinds["same_inner_object_again"] = kinds.get("same_inner_object_again", 0) + 1
+        bad = _ls_check(case)
+        if bad:
+            sig = f"C11|library_sources|{case['op']}|{bad[0]}"
+            size = len(case["arrivals"]) + sum(sp["n"] for sp in case["inners"])
+            if sig in worst and worst[sig][2] <= size:
+                continue
+            worst[sig] = (sig, {"family": "library_source_scenarios", "case": case, "mismatch": bad[0],
+                                "what": bad[1], "got": bad[2], "expected": bad[3],
+                                "legend": "outer element i is projected to inners[i]; inner i's elements are "
+                                          "100*i + 0, 1, ...; the wrapper log lists sub / term (terminal "
+                                          "forwarded) / unsub per logged inner in real order"}, size)
+        elif len(case["arrivals"]) >= 2:
+            nontrivial.add(repr(case))
+    for sig, rep, size in worst.values():
+        chk.violation(sig, rep, size=size)
+    return nontrivial, hist, kinds
+
+
+_run_machines = run
+
+
+def run(chk):
+    chk_finish = chk.finish
+    holder = {}
+
+    def deferred_finish(*a, **kw):
+        holder["args"] = (a, kw)
+        return 0
+    chk.finish = deferred_finish
+    _run_machines(chk)
+    chk.finish = chk_finish
+    nt, hist, fact_hist = sync_exact_scenarios(chk)
+    chk.cov["distinct_nontrivial"] += len(nt)
+    chk.cov["sync_exact_scenarios"] = {"cases": sum(hist.values()), "distinct_nontrivial": len(nt),
+                                       "per_operator": dict(sorted(hist.items())),
+                                       "cases_with": dict(sorted(fact_hist.items()))}
+    chk.cov["rule"] += ("; plus oracle-only scenarios (sync_exact_scenarios): flat_map / flat_map_indexed / "
+                        "map+merge_all / concat_map / map+merge(max_concurrent=1..3) where the projection returns "
+                        "members of a reused pool of 2-4 inner observables (logged cold sources that deliver a prefix "
+                        "incl. falsy values and then complete / fail / stay open INSIDE subscribe(), and hot Subjects "
+                        "whose termination is remembered), the outer itself may deliver 0-4 elements and its end "
+                        "inside subscribe(); seeded scripts of outer emissions, member push/complete/error, outer "
+                        "completion/error and dispose; notifications (with the script step) and the per-step "
+                        "subscribe/unsubscribe log are compared with the property text executed directly; non-trivial "
+                        "= agrees, >= 2 notifications, an inner completing inside subscribe() or a repeated inner object")
+    nt, hist, kinds = library_source_scenarios(chk)
+    chk.cov["distinct_nontrivial"] += len(nt)
+    chk.cov["library_source_scenarios"] = {"cases": sum(hist.values()), "distinct_nontrivial": len(nt),
+                                           "distinct_shapes": len(hist), "cases_with_inner_kind": dict(sorted(kinds.items()))}
+    chk.cov["rule"] += ("; plus oracle-only scenarios (library_source_scenarios): the same operators and "
+                        "flat_map(observable) over the library's own sources (of, empty, throw, never, of+throw, "
+                        "of+never, completed Subject, resolved / failed Future) and lists / generators returned by the "
+                        "projection (from_ conversion), outer = of(...) [+never | +throw] or a Subject, 0-5 arrivals "
+                        "with repeated inner objects, on the default trampoline and on ImmediateScheduler; judged by "
+                        "predicates read off the statement (per-inner order and multiplicity, terminal kind, ordered "
+                        "concatenation for max_concurrent=1, start order = arrival order, at most max_concurrent "
+                        "unfinished inners at once, nothing left subscribed after the terminal); non-trivial = "
+                        "predicates hold and >= 2 arrivals")
+    a, kw = holder["args"]
+    return chk.finish(*a, **kw)
